@@ -181,7 +181,8 @@ func c01Monitor(c *plCfg, q *plQuery, o *plObs) (ok bool, msg string) {
 			return false, fmt.Sprintf("%s is on a block list (plain rule, no exceptions anywhere) but was not blocked: calls=%v", host, o.Calls)
 		}
 	case 2:
-		if len(o.Calls) != 1 || res == nil || res.Reason != filtering.NotFilteredAllowList {
+		// (when the upstream fails nothing reaches the query log: the call is the evidence)
+		if len(o.Calls) != 1 || (q.Answer != nil && (res == nil || res.Reason != filtering.NotFilteredAllowList)) {
 			return false, fmt.Sprintf("%s is on the allow list (plain entry) but was not let through as allow-listed: calls=%v", host, o.Calls)
 		}
 	case -1:
@@ -372,6 +373,149 @@ func c01Classes(c *plCfg, q *plQuery, o *plObs) (cl []string) {
 	}
 	if q.Name != strings.ToLower(q.Name) {
 		cl = append(cl, "mixed-case-name")
+	}
+	return append(cl, c01RuleClasses(c, q, o)...)
+}
+
+// c01RuleClasses: the rule-modifier situations of the query, derived from
+// the rule set in force and the question (round 4; until then these classes
+// were only named by the prelude).  A rule "is about" the name when its
+// pattern is ||n^ with n the name or a parent of it.
+func c01RuleClasses(c *plCfg, q *plQuery, o *plObs) (cl []string) {
+	protection, filteringOn, sb, par, svcs := plEffective(c, q)
+	if c.AAAADisabled && q.QType == dns.TypeAAAA {
+		return []string{"aaaa-disabled"}
+	}
+	if q.Name == mozillaFQDN && (q.QType == dns.TypeA || q.QType == dns.TypeAAAA) {
+		return []string{"canary"}
+	}
+	if !protection {
+		return nil
+	}
+	host := strings.ToLower(strings.TrimSuffix(q.Name, "."))
+	about := func(r *vfRule) bool {
+		if r.IsHost {
+			return false
+		}
+		p := strings.ToLower(r.Pattern)
+		if !strings.HasPrefix(p, "||") || !strings.HasSuffix(p, "^") || strings.ContainsAny(p[2:len(p)-1], "*^|") {
+			return false
+		}
+		n := p[2 : len(p)-1]
+		return host == n || strings.HasSuffix(host, "."+n)
+	}
+	under := func(doms []string) bool {
+		for _, d := range doms {
+			if host == d || strings.HasSuffix(host, "."+d) {
+				return true
+			}
+		}
+		return false
+	}
+	seen := map[string]bool{}
+	add := func(s string) {
+		if !seen[s] {
+			seen[s] = true
+			cl = append(cl, s)
+		}
+	}
+	if filteringOn {
+		blockAbout, allowAbout, importantBlock, exception := false, false, false, false
+		for _, r := range c.Allow {
+			if about(r) && !r.Badfilter {
+				allowAbout = true
+			}
+		}
+		for _, r := range c.BlockRules() {
+			if !about(r) {
+				continue
+			}
+			if r.Badfilter {
+				add("badfilter")
+				continue
+			}
+			if len(r.DTPerm)+len(r.DTRestr) > 0 {
+				ok := len(r.DTPerm) == 0
+				for _, t := range r.DTPerm {
+					if t == q.QType {
+						ok = true
+					}
+				}
+				for _, t := range r.DTRestr {
+					if t == q.QType {
+						ok = false
+					}
+				}
+				if ok {
+					add("dnstype-match")
+				} else {
+					add("dnstype-mismatch")
+				}
+			}
+			if len(r.ClPerm)+len(r.ClRestr) > 0 {
+				add("client-rule-about-name")
+				for _, cp := range r.ClPerm {
+					if cp == q.Addr.String() {
+						add("client-match")
+					}
+				}
+			}
+			if len(r.Denyallow) > 0 {
+				if under(r.Denyallow) {
+					add("denyallow-hit")
+				} else {
+					add("denyallow-miss")
+				}
+			}
+			if len(r.DTPerm)+len(r.DTRestr)+len(r.ClPerm)+len(r.ClRestr)+len(r.Denyallow)+len(r.CtPerm)+len(r.CtRestr) == 0 && r.Drw == "" {
+				switch {
+				case r.White:
+					exception = true
+				case r.Important:
+					importantBlock, blockAbout = true, true
+				default:
+					blockAbout = true
+				}
+			}
+		}
+		if allowAbout && blockAbout {
+			add("allow-over-block")
+		}
+		if importantBlock && exception {
+			add("important-block-over-exception")
+		}
+	}
+	for _, id := range svcs {
+		for _, s := range plServices {
+			if s.ID != id {
+				continue
+			}
+			for _, r := range s.Rules {
+				if about(r) && !r.White {
+					add("blocked-service")
+				}
+			}
+		}
+	}
+	if pc := c.clientFor(q.Addr); pc != nil && pc.UseOwnSvc {
+		if pc.SvcPaused && len(pc.Svcs) > 0 {
+			add("blocked-service-paused")
+		}
+	} else if c.SvcPaused && len(c.Svcs) > 0 {
+		add("blocked-service-paused")
+	}
+	for _, h := range c.SBHosts {
+		if sb && h == host {
+			add("safe-browsing")
+		}
+	}
+	for _, h := range c.ParHosts {
+		if par && h == host {
+			add("parental")
+		}
+	}
+	if q.Answer == nil && len(o.Calls) > 0 {
+		add("upstream-error")
 	}
 	return cl
 }
@@ -894,7 +1038,14 @@ func TestVerifC01(t *testing.T) {
 			name := vfMixCase(rnd, vfPick(rnd, vfNames)) + "."
 			qt := vfPick(rnd, vfQTypes[:7])
 			addr := netip.MustParseAddr(vfPick(rnd, plClientAddrs))
-			emit(ps, &plQuery{Name: name, QType: qt, Addr: addr, Answer: c01Answer(rnd, name, qt)})
+			q := &plQuery{Name: name, QType: qt, Addr: addr, Answer: c01Answer(rnd, name, qt)}
+			if rnd.Chance(1, 40) {
+				q.Answer = nil // the upstream fails
+			}
+			if rnd.Chance(1, 80) {
+				q.Name = mozillaFQDN // the Firefox canary name
+			}
+			emit(ps, q)
 		}
 	}
 }
